@@ -119,6 +119,19 @@ func doPair(c *vkit.Collector, rng *vkit.Rng, la, lb *s2.Loop, class string, coq
 	if shared > 0 {
 		c.Class("shared-vertices")
 	}
+	if A.kind == 2 && B.kind == 2 {
+		// reach of the index walk: both indexes multi-cell means the cell-against-subcell paths run
+		ca, cb := indexCells(la), indexCells(lb)
+		if ca >= 16 && cb >= 16 {
+			c.Class("index: both sides >= 16 cells")
+		} else if ca > 1 && cb > 1 {
+			c.Class("index: both sides multi-cell")
+		} else if ca > 1 || cb > 1 {
+			c.Class("index: one side multi-cell")
+		} else {
+			c.Class("index: single cells")
+		}
+	}
 	samples := sampleFrom(rng, A, B)
 	viol := func(kind, desc, xn, yn string) {
 		r := map[string]interface{}{"X": xn, "Y": yn}
@@ -290,4 +303,15 @@ func doBoundPair(c *vkit.Collector, a, b []s2.Point) {
 			report(c, "Loop.Intersects.sym", "X.Intersects(Y) != Y.Intersects(X) [boundpair]", replay)
 		}
 	}
+}
+
+// indexCells counts the cells of a fresh ShapeIndex of the loop.
+func indexCells(l *s2.Loop) int {
+	idx := s2.NewShapeIndex()
+	idx.Add(l)
+	n := 0
+	for it := idx.Iterator(); !it.Done(); it.Next() {
+		n++
+	}
+	return n
 }
